@@ -1,0 +1,65 @@
+//go:build verif
+
+package keylock
+
+// Contracts for govc (contract-based deductive verification, see /verif/DESIGN.md).
+// Comments only; compiled only with the build tag `verif`.
+
+//@ arith int
+//@ property C02
+//@ assumption per-key registration counters stay below 2^62; exclusion inside sync.RWMutex itself is trusted
+//
+// Thread-local ghost view of ONE arbitrary (locker, key) pair: the calling goroutine currently holds regW
+// write registrations and regR read registrations of key regKey in locker regLocker (a registration lasts
+// from the critical section of (R)Lock to the critical section of the matching (R)Unlock). The ghosts are
+// not shared state: they are not havocked when the table mutex is acquired.
+//@ ghost regLocker *KeyLocker
+//@ ghost regKey interface{}
+//@ ghost regW int
+//@ ghost regR int
+//
+//@ guarded KeyLocker.lockMap by KeyLocker.locker
+//@ blocking wrapLocker.rwLocker
+//@ monitor KeyLocker.locker
+//@   havoc mapsof(self.lockMap), wrapLocker.readCount, wrapLocker.writeCount
+//@   invariant #entries self.lockMap != nil && forall k interface{} :: { has(self.lockMap, k) } has(self.lockMap, k) ==> self.lockMap[k] != nil && allocated(self.lockMap[k]) && self.lockMap[k].readCount >= 0 && self.lockMap[k].writeCount >= 0 && self.lockMap[k].readCount + self.lockMap[k].writeCount > 0
+//@   invariant #distinct forall k1 interface{}, k2 interface{} :: { has(self.lockMap, k1), has(self.lockMap, k2) } has(self.lockMap, k1) && has(self.lockMap, k2) && k1 != k2 ==> self.lockMap[k1] != self.lockMap[k2]
+//@   invariant #mine regW >= 0 && regR >= 0 && (self == regLocker && regW + regR > 0 ==> has(self.lockMap, regKey) && self.lockMap[regKey].writeCount >= regW && self.lockMap[regKey].readCount >= regR)
+//@   assume forall x *wrapLocker :: { x.readCount } x.readCount < 4611686018427387904 && x.writeCount < 4611686018427387904
+//
+//@ pure mineKey(d *KeyLocker, key interface{}) int = ite(d == regLocker && key == regKey, 1, 0)
+//
+//@ func KeyLocker.Lock
+//@   requires !held(d.locker)
+//@   atrelease regW = regW + mineKey(d, key)
+//@   ensures #registered regW == old(regW) + mineKey(d, key) && regR == old(regR)
+//@   opt keeps-lock
+//@   modifies mapsof(d.lockMap), wrapLocker.readCount, wrapLocker.writeCount, regW, region($alloc)
+//
+//@ func KeyLocker.RLock
+//@   requires !held(d.locker)
+//@   atrelease regR = regR + mineKey(d, key)
+//@   ensures #registered regR == old(regR) + mineKey(d, key) && regW == old(regW)
+//@   opt keeps-lock
+//@   modifies mapsof(d.lockMap), wrapLocker.readCount, wrapLocker.writeCount, regR, region($alloc)
+//
+//@ func KeyLocker.Unlock
+//@   requires !held(d.locker) && d == regLocker && key == regKey && regW > 0
+//@   atrelease regW = regW - 1
+//@   ensures #unregistered regW == old(regW) - 1 && regR == old(regR)
+//@   opt keeps-lock
+//@   modifies mapsof(d.lockMap), wrapLocker.readCount, wrapLocker.writeCount, regW
+//
+//@ func KeyLocker.RUnlock
+//@   requires !held(d.locker) && d == regLocker && key == regKey && regR > 0
+//@   atrelease regR = regR - 1
+//@   ensures #unregistered regR == old(regR) - 1 && regW == old(regW)
+//@   opt keeps-lock
+//@   modifies mapsof(d.lockMap), wrapLocker.readCount, wrapLocker.writeCount, regR
+//
+//@ func KeyLocker.tryFree
+//@   requires wheld(d.locker) && d.lockMap != nil && wrLocker != nil
+//@   ensures #freed wrLocker.readCount == 0 && wrLocker.writeCount == 0 ==> !has(d.lockMap, key)
+//@   ensures #kept !(wrLocker.readCount == 0 && wrLocker.writeCount == 0) ==> has(d.lockMap, key) == old(has(d.lockMap, key)) && d.lockMap[key] == old(d.lockMap[key])
+//@   ensures #others forall k interface{} :: { has(d.lockMap, k) } k != key ==> has(d.lockMap, k) == old(has(d.lockMap, k)) && d.lockMap[k] == old(d.lockMap[k])
+//@   modifies entries(d.lockMap)
